@@ -20,8 +20,6 @@ use crate::world_b::{lace_bin, run_lace, Run, Scratch};
 pub const REPORT_GUARD: Duration = Duration::from_secs(6);
 const REWRITE_AFTER: Duration = Duration::from_millis(2500);
 const SETTLED_AFTER: Duration = Duration::from_millis(1600);
-const CLEAR: &[u8] = b"\x1b[2J\x1b[2;1H";
-const HELP: &[u8] = b"Help press CTRL+C to exit\n";
 
 #[derive(Debug, Default)]
 pub struct WatchRun {
@@ -59,36 +57,64 @@ fn drain(fd: i32, into: &mut Vec<u8>) {
 
 fn normalise(text: &str) -> String {
     let t = text.trim();
-    if t.starts_with("Success") {
-        "SUCCESS".to_string()
-    } else {
-        t.strip_prefix("Error: ").unwrap_or(t).trim().to_string()
-    }
+    t.strip_prefix("Error: ").unwrap_or(t).trim().to_string()
 }
 
-/// Verdict texts of the re-check reports printed so far (the first screen is not a re-check).
-fn reports(stdout: &[u8]) -> Vec<String> {
-    let mut out = Vec::new();
-    let mut at = 0usize;
-    let mut first = true;
-    while let Some(pos) = stdout[at..].windows(CLEAR.len()).position(|w| w == CLEAR) {
-        let start = at + pos + CLEAR.len();
-        let end = stdout[start..]
-            .windows(CLEAR.len())
-            .position(|w| w == CLEAR)
-            .map(|p| start + p)
-            .unwrap_or(stdout.len());
-        at = start;
-        if first {
-            first = false;
+/// The line by which `lace check` says that a source is fine: learned from the tree under test
+/// (the status lines two different valid sources have in common), so that rewording it or
+/// printing more around it does not matter.
+fn success_marker() -> &'static String {
+    static MARKER: std::sync::OnceLock<String> = std::sync::OnceLock::new();
+    MARKER.get_or_init(|| {
+        let scratch = Scratch::new("c19cal");
+        let mut outputs: Vec<Vec<String>> = Vec::new();
+        for source in ["    halt\n", "Cal_a add r1, r1, #1\n    and r2, r2, #0\n    halt\nCal_b .fill x0007\n"] {
+            let dir = scratch.path("cal");
+            let _ = std::fs::create_dir_all(&dir);
+            if std::fs::write(dir.join("f.asm"), source).is_err() {
+                return "Success".to_string();
+            }
+            let p = run_lace(
+                &scratch,
+                &Run {
+                    args: vec!["check".into(), "f.asm".into()],
+                    cwd: &dir,
+                    stdin: b"",
+                    plan: None,
+                    watch: None,
+                    rlimit_fsize: None,
+                },
+            );
+            if p.status != Some(0) {
+                return "Success".to_string();
+            }
+            outputs.push(String::from_utf8_lossy(&p.stdout).lines().map(|l| l.trim().to_string()).filter(|l| !l.is_empty() && !l.contains("f.asm")).collect());
+        }
+        outputs[0].iter().rev().find(|l| outputs[1].contains(l)).cloned().unwrap_or_else(|| "Success".to_string())
+    })
+}
+
+/// What the text printed since a save amounts to: `Ok` if the expected verdict is the last of
+/// the known verdicts in it, `Err` with what is shown last otherwise.
+fn shown_verdict(new_output: &str, expected: &str, known: &[String]) -> Result<(), Option<String>> {
+    let marker = |verdict: &str| -> String { if verdict == "SUCCESS" { success_marker().clone() } else { verdict.to_string() } };
+    let mut last: Option<(usize, &String)> = None;
+    for v in known {
+        if v == "PANIC" {
             continue;
         }
-        let block = &stdout[start..end];
-        if let Some(h) = block.windows(HELP.len()).position(|w| w == HELP) {
-            out.push(normalise(&String::from_utf8_lossy(&block[h + HELP.len()..])));
+        if let Some(at) = new_output.rfind(&marker(v)) {
+            // (the later one wins; of two at the same place, the longer)
+            if last.is_none_or(|(p, w)| at > p || (at == p && marker(v).len() > marker(w).len())) {
+                last = Some((at, v));
+            }
         }
     }
-    out
+    match last {
+        Some((_, v)) if v == expected => Ok(()),
+        Some((_, v)) => Err(Some(v.clone())),
+        None => Err(None),
+    }
 }
 
 /// Fresh verdict of one text by `lace check` in its own process. `None`: the assembler itself
@@ -169,12 +195,18 @@ pub fn run_watch(scratch: &Scratch, texts: &[String], rename_saves: &[bool], pin
     let mut stdout: Vec<u8> = Vec::new();
     let mut stderr: Vec<u8> = Vec::new();
 
-    // The first screen
+    // The first screen (whatever it says): some output, then a moment of quiet
     let started = Instant::now();
+    let mut last_len = 0usize;
+    let mut last_change = Instant::now();
     loop {
         drain(out.as_raw_fd(), &mut stdout);
         drain(err.as_raw_fd(), &mut stderr);
-        if stdout.windows(HELP.len()).any(|w| w == HELP) {
+        if stdout.len() != last_len {
+            last_len = stdout.len();
+            last_change = Instant::now();
+        }
+        if !stdout.is_empty() && last_change.elapsed() > Duration::from_millis(150) {
             break;
         }
         if let Ok(Some(status)) = child.try_wait() {
@@ -214,9 +246,13 @@ pub fn run_watch(scratch: &Scratch, texts: &[String], rename_saves: &[bool], pin
             }
         }
     };
+    let mut known: Vec<String> = run.fresh.clone();
+    known.push("SUCCESS".to_string());
+    known.sort();
+    known.dedup();
     'versions: for (i, text) in texts.iter().enumerate() {
         let by_rename = rename_saves.get(i).copied().unwrap_or(false);
-        let before = reports(&stdout).len();
+        let before = stdout.len();
         save(text, by_rename);
         let mut last_save = Instant::now();
         let started = Instant::now();
@@ -230,10 +266,10 @@ pub fn run_watch(scratch: &Scratch, texts: &[String], rename_saves: &[bool], pin
                 last_len = stdout.len();
                 last_output = Instant::now();
             }
-            let all = reports(&stdout);
+            let new_output = String::from_utf8_lossy(&stdout[before..]).into_owned();
             if run.fresh[i] == "PANIC" {
-                if all.len() > before && last_output.elapsed() > SETTLED_AFTER {
-                    run.seen.push(all.last().cloned());
+                if !new_output.is_empty() && last_output.elapsed() > SETTLED_AFTER {
+                    run.seen.push(Some("PANIC".to_string()));
                     break;
                 }
                 if let Ok(Some(_)) = child.try_wait() {
@@ -249,8 +285,9 @@ pub fn run_watch(scratch: &Scratch, texts: &[String], rename_saves: &[bool], pin
                 std::thread::sleep(Duration::from_millis(3));
                 continue;
             }
-            if all.len() > before && all.last() == Some(&run.fresh[i]) {
-                run.seen.push(all.last().cloned());
+            let shown = shown_verdict(&new_output, &run.fresh[i], &known);
+            if shown.is_ok() {
+                run.seen.push(Some(run.fresh[i].clone()));
                 break;
             }
             if let Ok(Some(status)) = child.try_wait() {
@@ -262,10 +299,10 @@ pub fn run_watch(scratch: &Scratch, texts: &[String], rename_saves: &[bool], pin
                     i,
                     String::from_utf8_lossy(&stderr).lines().last().unwrap_or("")
                 ));
-                run.seen.push(reports(&stdout).get(before..).and_then(|r| r.last().cloned()));
+                run.seen.push(shown.err().flatten());
                 break 'versions;
             }
-            if all.len() == before && last_save.elapsed() > REWRITE_AFTER && rewrites_here < 4 {
+            if new_output.is_empty() && last_save.elapsed() > REWRITE_AFTER && rewrites_here < 4 {
                 // No notification at all (the watch may not have been set up yet when the first
                 // version was saved): save again, as a user would
                 rewrites_here += 1;
@@ -273,17 +310,21 @@ pub fn run_watch(scratch: &Scratch, texts: &[String], rename_saves: &[bool], pin
                 save(text, by_rename);
                 last_save = Instant::now();
             }
-            // A report was printed for this save and nothing has followed for three debounce
+            // Something was printed for this save and nothing has followed for three debounce
             // delays: that is the verdict the user is left with
-            let settled = all.len() > before && last_output.elapsed() > SETTLED_AFTER;
+            let settled = !new_output.is_empty() && last_output.elapsed() > SETTLED_AFTER;
             if settled || started.elapsed() > REPORT_GUARD + REWRITE_AFTER * rewrites_here {
-                run.seen.push(if all.len() > before { all.last().cloned() } else { None });
+                run.seen.push(match shown {
+                    Err(Some(other)) => Some(other),
+                    _ if new_output.trim().is_empty() => None,
+                    _ => Some(format!("(no known verdict) {}", new_output.trim().lines().last().unwrap_or(""))),
+                });
                 break 'versions;
             }
             std::thread::sleep(Duration::from_millis(3));
         }
     }
-    run.reports = reports(&stdout).len();
+    run.reports = stdout.windows(4).filter(|w| w == b"\x1b[2J").count();
     let _ = child.kill();
     let _ = child.wait();
     run
